@@ -1162,14 +1162,19 @@ def _ber_run(ctx, res, replay_ops, n):
     # operation the process died in; the harness is restarted behind it.
     r.crash_info = {}
     restarts = 0
-    while "crash" in r.impl and restarts < 12:
+    while "crash" in r.impl:
         i = r.impl.index("crash")
         err = core.LAST_STDERR.get("ber", "")
         m = re.search(r"^(fatal error: .*|panic: .*|runtime: .*)$", err, flags=re.M)
         r.crash_info[i] = (m.group(1) if m else err.strip().split("\n")[0] if err.strip() else "the harness process died")[:300]
-        restarts += 1
-        tail = r.ops[i + 1:]
         r.impl[i] = "crash!"
+        restarts += 1
+        if restarts >= 25:
+            # enough: what lies behind was never run and is not judged
+            res.extra["operations_not_run_after_25_runtime_aborts"] = len(r.ops) - i - 1
+            r.ops, r.impl, r.model = r.ops[:i + 1], r.impl[:i + 1], r.model[:i + 1]
+            break
+        tail = r.ops[i + 1:]
         if tail:
             r.impl[i + 1:] = core.harness_run(ctx.harness, "ber", tail)
     r.impl = ["crash" if x == "crash!" else x for x in r.impl]
